@@ -116,7 +116,7 @@ def gen_reldiff(rng, tier):
         z = (2, False, 0, [])
         for _ in range(reps):
             x = base.rand_opnd(rng, rprec, exp=rng.choice([0, 1, -2, 5, rng.randrange(-(1 << 40), 1 << 40)]))
-            kind = rng.randrange(8)
+            kind = rng.randrange(11)
             if kind == 0:   y = base.rand_opnd(rng, rprec, exp=x[2] + rng.choice([0, 0, 1, -1, 2, -40]))
             elif kind == 1: y = base.rand_opnd(rng, rprec, exp=x[2], neg=x[1])
             elif kind == 2:                                                  # one bit apart (cancellation in the mpf_sub)
@@ -126,6 +126,10 @@ def gen_reldiff(rng, tier):
             elif kind == 4: y = (rng.choice(PRECS), x[1], x[2], list(x[3])[rng.randrange(len(x[3])):])          # prefix of x
             elif kind == 5: y = (rng.choice(PRECS), x[1], x[2], base.tail(rng, rng.randrange(1, 4)) + list(x[3]))   # x is a prefix of y
             elif kind == 6: y = (rng.choice(PRECS), not x[1], x[2], list(x[3]))                                 # y = -x: result 2
+            elif kind in (7, 8, 9):                                          # the difference needs all prec+|x|+1 limbs of the temporary
+                x = (x[0], x[1], x[2], base.limbs_nz(rng, rng.choice([1, 1, 2, 3])))
+                ny = rprec + len(x[3]) + rng.choice([0, 1, 2, 3])
+                y = (rng.choice(PRECS), rng.choice([x[1], x[1], not x[1]]), x[2] - rng.choice([0, 0, 1, 1, 2, rprec]), base.limbs_nz(rng, ny))
             else:           y = z
             mode = rng.choice([0, 0, 0, 1, 2, 3, 4])
             yield "mpf_reldiff %x %x %s %s" % (rprec, mode, F(x), F(y))
